@@ -99,6 +99,7 @@ type Case2 struct {
 	Drained  bool     `json:"drained"`
 	Err      string   `json:"err,omitempty"`
 	Rows     int      `json:"rows"`
+	Repeat   bool     `json:"repeat,omitempty"` // the script pushes the same series more than once (the parsers read the announcement cache)
 }
 
 // wire returns the bytes sent on the wire for a push
@@ -310,6 +311,13 @@ type bench2 struct {
 	owner   map[int64][2]int // row id -> (push, position of the sub-request) that submitted it
 	tries   map[[2]int]int   // Request calls seen per sub-request
 	keyRid  map[uint64]int64 // announcement-cache key -> the series row it stands for (learnt by running ConfirmSeries on the dry-run output)
+	// the same series pushed twice gives two sub-requests with the same rows: a request object is bound to the first
+	// sub-request with these rows that no other object is bound to (pushes are served one at a time, in order)
+	byRows  map[string][][2]int        // group + row ids -> sub-requests (push, position), in order of learning
+	bound   map[helpers.SizeGetter][2]int
+	taken   map[[2]int]bool
+	pushOf  map[int64]int // goroutine of an HTTP handler -> its push (ConfirmSeries runs on it)
+	cache   *numbercache.Cache[uint64]
 }
 
 // spySvc stands between doPush and the real service: it sees every Request call (which sub-request, which attempt)
@@ -325,9 +333,28 @@ func (s *spySvc) Request(req helpers.SizeGetter, mode int) *promise.Promise[uint
 	if keys, ok := reqRowKeys(l2kinds[s.g], req); ok && len(keys) > 0 {
 		nrows = len(keys)
 		s.b.mu.Lock()
-		if id, known := s.b.rid[fmt.Sprint(s.g)+"|"+keys[0]]; known {
-			if o, ok := s.b.owner[id]; ok {
-				h, i = o[0], o[1]
+		if o, known := s.b.bound[req]; known {
+			h, i = o[0], o[1]
+		} else {
+			var ids []int64
+			for _, k := range keys {
+				ids = append(ids, s.b.rid[fmt.Sprint(s.g)+"|"+k])
+			}
+			for _, o := range s.b.byRows[fmt.Sprint(s.g, ids)] {
+				if !s.b.taken[o] {
+					s.b.taken[o] = true
+					s.b.bound[req] = o
+					h, i = o[0], o[1]
+					break
+				}
+			}
+			if h < 0 {
+				// the parser left rows out (announcement cache): the sub-request of the first row's owner, as before
+				if id, known := s.b.rid[fmt.Sprint(s.g)+"|"+keys[0]]; known {
+					if o, ok := s.b.owner[id]; ok {
+						h, i = o[0], o[1]
+					}
+				}
 			}
 		}
 		s.b.mu.Unlock()
@@ -353,11 +380,14 @@ type spyCache struct {
 }
 
 func (c *spyCache) CheckAndSet(key uint64) bool {
+	g := gid()
 	c.b.mu.Lock()
 	id, known := c.b.keyRid[key]
 	h := -1
 	if !known {
 		id = -1
+	} else if p, ok := c.b.pushOf[g]; ok {
+		h = p // ConfirmSeries runs on the handler goroutine of the push
 	} else if o, ok := c.b.owner[id]; ok {
 		h = o[0]
 	}
@@ -391,6 +421,10 @@ func (b *bench2) learn(h int, items []Item) {
 				if _, dup := b.owner[id]; !dup {
 					b.owner[id] = [2]int{h, i}
 				}
+			}
+			if len(sr.Rids) > 0 {
+				k := fmt.Sprint(sr.G, sr.Rids)
+				b.byRows[k] = append(b.byRows[k], [2]int{h, i})
 			}
 			i++
 		}
@@ -607,7 +641,15 @@ func (b *bench2) dryParse(hr *HReq) []Item {
 func start2(c *Case2) *runner2 {
 	n := len(l2kinds)
 	b := newBench(make([]int, n), c.Dials)
-	b2 := &bench2{bench: b, rid: map[string]int64{}, nextRid: 1, status: map[int]int{}, owner: map[int64][2]int{}, tries: map[[2]int]int{}, keyRid: map[uint64]int64{}}
+	b2 := &bench2{bench: b, rid: map[string]int64{}, nextRid: 1, status: map[int]int{}, owner: map[int64][2]int{}, tries: map[[2]int]int{}, keyRid: map[uint64]int64{},
+		byRows: map[string][][2]int{}, bound: map[helpers.SizeGetter][2]int{}, taken: map[[2]int]bool{}, pushOf: map[int64]int{}}
+	// every script has an announcement cache of its own (the real numbercache): what a parser finds in it is what the
+	// pushes of THIS script confirmed, also when the script is run again (corpus, replay, shrinking)
+	b2.cache = numbercache.NewCache[uint64](time.Hour, func(v uint64) []byte {
+		x := make([]byte, 8)
+		binary.LittleEndian.PutUint64(x, v)
+		return x
+	}, map[string]*model.DataDatabasesMap{"n": node2})
 	b.l2 = b2
 	r := &runner2{c: c, b: b2}
 	maps := make([]map[string]service.IInsertServiceV2, n)
@@ -622,7 +664,7 @@ func start2(c *Case2) *runner2 {
 	}
 	controllerv1.Registry = registry.NewStaticServiceRegistry(maps[gSeries], maps[gSamples],
 		map[string]service.IInsertServiceV2{}, maps[gSpans], maps[gTags], maps[gProfile])
-	controllerv1.FPCache = &spyCache{inner: fpCache2, b: b2}
+	controllerv1.FPCache = &spyCache{inner: b2.cache, b: b2}
 	config.Cloki.Setting.SYSTEM_SETTINGS.RetryAttempts = c.Attempts
 	config.Cloki.Setting.SYSTEM_SETTINGS.RetryTimeoutS = 0
 	cfg := controllerv1.NewMiddlewareConfig(controllerv1.WithExtraMiddlewareDefault...)
@@ -650,6 +692,9 @@ func start2(c *Case2) *runner2 {
 }
 
 func (r *runner2) serve(h int, req *HReq) {
+	r.b.mu.Lock()
+	r.b.pushOf[gid()] = h
+	r.b.mu.Unlock()
 	body := req.wire()
 	target := "/push"
 	if req.Query != "" {
@@ -712,6 +757,7 @@ func (r *runner2) do(o *Op2) []Ev2 {
 }
 
 func (r *runner2) finish() {
+	r.b.cache.Stop()
 	(&runner{b: r.b.bench, svcs: r.svcs, c: &Case{}}).finish()
 	r.c.Err = r.b.trouble
 }
@@ -740,6 +786,25 @@ func lokiBody(r *rand.Rand, tag string, uniq *int64) (string, int) {
 	rows := 0
 	for s := 0; s < ns; s++ {
 		nv := 1 + r.Intn(4)
+		var vals []string
+		for v := 0; v < nv; v++ {
+			*uniq++
+			vals = append(vals, fmt.Sprintf(`["%d","line %s %d"]`, 1700000000000000000+*uniq, tag, *uniq))
+			rows++
+		}
+		streams = append(streams, fmt.Sprintf(`{"stream":{"job":"%s","s":"%d"},"values":[%s]}`, tag, s, strings.Join(vals, ",")))
+	}
+	return fmt.Sprintf(`{"streams":[%s]}`, strings.Join(streams, ",")), rows
+}
+
+// lokiRepeatBody: one or two streams whose labels depend on tag only (the same series in every push of the script), all
+// entries within one day, fresh lines
+func lokiRepeatBody(r *rand.Rand, tag string, uniq *int64) (string, int) {
+	ns := 1 + r.Intn(2)
+	var streams []string
+	rows := 0
+	for s := 0; s < ns; s++ {
+		nv := 1 + r.Intn(3)
 		var vals []string
 		for v := 0; v < nv; v++ {
 			*uniq++
@@ -860,6 +925,14 @@ func (g *gen) runGenerated2(c *Case2, uniq *int64) {
 	case 3:
 		class = "bigspans"
 		c.Attempts = 2 + r.Intn(2)
+	case 5:
+		//  repeat  : the same series (labels, day) pushed two or three times: the parsers read the announcement cache.
+		//            seq: the next push arrives after the one before was stored, answered and confirmed (its series row is left out);
+		//            inflight: it arrives while the one before waits for its INSERTs (both carry the row);
+		//            failfirst: the INSERT of the first push's series row fails for good (error answer, nothing confirmed), the next carries the row again
+		class = "repeat " + []string{"seq", "inflight", "failfirst"}[(c.ID/10+int(g.seed%3)+3)%3]
+		c.Attempts = 1 + r.Intn(3)
+		c.Repeat = true
 	}
 	if class != "" {
 		c.Class = fmt.Sprintf("%s attempts=%d", class, c.Attempts)
@@ -945,6 +1018,47 @@ func (g *gen) runGenerated2(c *Case2, uniq *int64) {
 					step(Op2{T: "ret", S: s, Ok: false, E: et})
 				default:
 					step(Op2{T: "plan", S: s})
+				}
+			}
+		}
+	case "repeat seq", "repeat inflight", "repeat failfirst":
+		nops = r.Intn(5)
+		tag := fmt.Sprintf("c%drep", c.ID)
+		repReq := func() {
+			h := len(c.Reqs)
+			body, rows := lokiRepeatBody(r, tag, uniq)
+			hr := HReq{Route: "loki", Body: hex.EncodeToString([]byte(body))}
+			c.Rows += rows
+			hr.Items = rn.b.dryParse(&hr)
+			rn.b.learn(h, hr.Items)
+			c.Reqs = append(c.Reqs, hr)
+			step(Op2{T: "http", H: h})
+		}
+		// one flush of worker s: plan, call of Do, return with ok
+		flush := func(s int, ok bool) {
+			step(Op2{T: "plan", S: s})
+			if _, bf := state(s); bf {
+				step(Op2{T: "send", S: s})
+			}
+			if fl, _ := state(s); fl {
+				step(Op2{T: "ret", S: s, Ok: ok, E: r.Intn(len(errTexts))})
+			}
+		}
+		npush := 2 + r.Intn(2)
+		for k := 0; k < npush && rn.b.trouble == ""; k++ {
+			repReq()
+			switch class {
+			case "repeat seq":
+				for round := 0; round < 6 && answers < len(c.Reqs) && rn.b.trouble == ""; round++ {
+					flush(gSeries, true)
+					flush(gSamples, true)
+				}
+			case "repeat failfirst":
+				if k == 0 {
+					for round := 0; round < 6 && answers < len(c.Reqs) && rn.b.trouble == ""; round++ {
+						flush(gSeries, false)
+						flush(gSamples, true)
+					}
 				}
 			}
 		}
